@@ -28,8 +28,10 @@ Definition set_subc (c : ctx) (b : bool) : ctx :=
   {| q := q c; sq := sq c; aq := aq c; askw := askw c; dia := dia c; wa := wa c; wn := wn c; subq := subq c; subc := b |}.
 (* Function.get_sql re-packs only with_namespace, quote_char and dialect for its arguments, and
    get_function_sql adds with_alias=False, subquery=True; everything else falls back to its default *)
+(* Function.get_sql: quote_char, dialect, with_namespace and (since 5ba0470) the alias / literal conventions
+   secondary_quote_char, alias_quote_char, as_keyword reach the arguments; the positional flags do not *)
 Definition fctx (c : ctx) : ctx :=
-  {| q := q c; sq := Some "'"; aq := None; askw := false; dia := dia c; wa := false; wn := wn c; subq := true; subc := false |}.
+  {| q := q c; sq := sq c; aq := aq c; askw := askw c; dia := dia c; wa := false; wn := wn c; subq := true; subc := false |}.
 
 (* a table as far as Field/Star/replace_table are concerned *)
 Record tref := { tname : string; tschema : list string; talias : option string }.
@@ -121,7 +123,7 @@ Fixpoint render (c : ctx) (t : term) {struct t} : res string :=
   | TLit raw alias => Ok (alias_sql c (q c) raw alias)
   | TParam txt => Ok txt
   | TNeg t' =>
-      s0 <- render (opc SNeg t' c) t' ;;
+      s0 <- render (opc SNeg t' (set_wa c false)) t' ;;
       let s := opnd SNeg t' s0 in
       Ok ("-" ++ paren (match t' with TArith _ _ _ _ => neg_parens_arith | TNeg _ => neg_parens_neg | _ => false end
                         || (neg_parens_minus && starts_minus s)) s)
@@ -138,24 +140,26 @@ Fixpoint render (c : ctx) (t : term) {struct t} : res string :=
       let c' := set_wa c false in
       a0 <- render (opc SCmpL l c') l ;; b0 <- render (opc SCmpR r c') r ;;
       let s := opnd SCmpL l a0 ++ cmp_text cm ++ opnd SCmpR r b0 in
-      (* quote_char is a named parameter of BasicCriterion.get_sql: it does not reach format_alias_sql *)
-      Ok (if wa c then alias_sql c None s alias else s)
+      Ok (if wa c then alias_sql c (q c) s alias else s)
   | TCplx bo l r alias =>
-      a <- render (set_subc c (needs_brackets_x bo (top_bop l))) l ;;
-      b <- render (set_subc c (needs_brackets_x bo (top_bop r))) r ;;
-      Ok (paren (subc c) (a ++ " " ++ bop_text_x bo ++ " " ++ b))
+      let c' := set_wa c false in
+      a <- render (set_subc c' (needs_brackets_x bo (top_bop l))) l ;;
+      b <- render (set_subc c' (needs_brackets_x bo (top_bop r))) r ;;
+      let s := paren (subc c) (a ++ " " ++ bop_text_x bo ++ " " ++ b) in
+      Ok (if wa c then alias_sql c (q c) s alias else s)
   | TIn t' cont negated alias =>
-      a <- render (opc SInTerm t' (set_subq c false)) t' ;; b <- render (set_subq c true) cont ;;
+      a <- render (opc SInTerm t' (set_wa (set_subq c false) false)) t' ;; b <- render (set_wa (set_subq c true) false) cont ;;
       Ok (alias_sql c (q c) (opnd SInTerm t' a ++ " " ++ (if negated then "NOT " else "") ++ "IN " ++ b) alias)
   | TBetween t' lo hi alias =>
-      a <- render (opc SBetTerm t' c) t' ;; b <- render (opc SBetLo lo c) lo ;; d <- render (opc SBetHi hi c) hi ;;
+      let c' := set_wa c false in
+      a <- render (opc SBetTerm t' c') t' ;; b <- render (opc SBetLo lo c') lo ;; d <- render (opc SBetHi hi c') hi ;;
       Ok (alias_sql c (q c) (opnd SBetTerm t' a ++ " BETWEEN " ++ opnd SBetLo lo b ++ " AND " ++ opnd SBetHi hi d) alias)
   | TBitAnd t' v alias =>
-      a <- render c t' ;; Ok (alias_sql c (q c) ("(" ++ a ++ " & " ++ v ++ ")") alias)
+      a <- render (set_wa c false) t' ;; Ok (alias_sql c (q c) ("(" ++ a ++ " & " ++ v ++ ")") alias)
   | TIsNull t' alias => a <- render (opc SIsNull t' (set_wa c false)) t' ;; Ok (alias_sql c (q c) (opnd SIsNull t' a ++ " IS NULL") alias)
   | TNotNull t' alias => a <- render (opc SNotNull t' (set_wa c false)) t' ;; Ok (alias_sql c (q c) (opnd SNotNull t' a ++ " IS NOT NULL") alias)
-  | TNot t' alias => a <- render (set_subc c true) t' ;; Ok (alias_sql (set_subc c true) (q c) ("NOT " ++ a) alias)
-  | TAll t' alias => a <- render c t' ;; Ok (alias_sql c (q c) (a ++ " ALL") alias)
+  | TNot t' alias => a <- render (set_wa (set_subc c true) false) t' ;; Ok (alias_sql (set_subc c true) (q c) ("NOT " ++ a) alias)
+  | TAll t' alias => a <- render (set_wa c false) t' ;; Ok (alias_sql c (q c) (a ++ " ALL") alias)
   | TEmpty => Err "TypeError"
   | TCase ws els alias =>
       let c' := set_wa c false in
@@ -171,9 +175,9 @@ Fixpoint render (c : ctx) (t : term) {struct t} : res string :=
       ss <- render_list (fctx c) args ;;
       let s := name ++ "(" ++ join "," ss ++ (match special with Some sp => " " ++ sp | None => "" end) ++ ")" in
       Ok (if wa c then alias_sql c (q c) s alias else s)
-  | TTuple vs alias => ss <- render_list c vs ;; Ok (alias_sql c (q c) ("(" ++ join "," ss ++ ")") alias)
+  | TTuple vs alias => ss <- render_list (set_wa c false) vs ;; Ok (alias_sql c (q c) ("(" ++ join "," ss ++ ")") alias)
   | TArray vs alias =>
-      ss <- render_list c vs ;;
+      ss <- render_list (set_wa c false) vs ;;
       let body := join "," ss in
       let s := if is_pg (dia c)
                then (match body with EmptyString => "'{}'" | _ => "ARRAY[" ++ body ++ "]" end)
